@@ -8,6 +8,7 @@ import (
 	"go/token"
 	"go/types"
 	"os"
+	"sort"
 	"strings"
 
 	"verifsa/internal/load"
@@ -201,6 +202,90 @@ func neutralSites(repo string, mutants bool) {
 							return true
 						})
 					}
+					ast.Inspect(fd.Body, func(n ast.Node) bool {
+						x, isCall := n.(*ast.CallExpr)
+						if !isCall {
+							return true
+						}
+						// the callee replaced by another function / method of the module with the identical signature (a sibling
+						// method of the same receiver type, or a sibling function of the same package): "called the wrong one"
+						var calleeID *ast.Ident
+						switch f := x.Fun.(type) {
+						case *ast.Ident:
+							calleeID = f
+						case *ast.SelectorExpr:
+							calleeID = f.Sel
+						}
+						if calleeID == nil {
+							return true
+						}
+						fobj, isF := pkg.TypesInfo.Uses[calleeID].(*types.Func)
+						if !isF || fobj.Pkg() == nil || !load.InModule(fobj.Pkg()) {
+							return true
+						}
+						sig := fobj.Type().(*types.Signature)
+						var cands []*types.Func
+						if sig.Recv() != nil {
+							rt := sig.Recv().Type()
+							if pt, isP := rt.(*types.Pointer); isP {
+								rt = pt.Elem()
+							}
+							if nt, isN := rt.(*types.Named); isN {
+								for i := 0; i < nt.NumMethods(); i++ {
+									cands = append(cands, nt.Method(i))
+								}
+							}
+							if it, isI := rt.Underlying().(*types.Interface); isI {
+								for i := 0; i < it.NumMethods(); i++ {
+									cands = append(cands, it.Method(i))
+								}
+							}
+						} else {
+							for _, nm := range fobj.Pkg().Scope().Names() {
+								if o, ok := fobj.Pkg().Scope().Lookup(nm).(*types.Func); ok {
+									cands = append(cands, o)
+								}
+							}
+						}
+						sameSig := func(a, b *types.Signature) bool {
+							if a.Params().Len() != b.Params().Len() || a.Results().Len() != b.Results().Len() || a.Variadic() != b.Variadic() {
+								return false
+							}
+							for i := 0; i < a.Params().Len(); i++ {
+								if !types.Identical(a.Params().At(i).Type(), b.Params().At(i).Type()) {
+									return false
+								}
+							}
+							for i := 0; i < a.Results().Len(); i++ {
+								if !types.Identical(a.Results().At(i).Type(), b.Results().At(i).Type()) {
+									return false
+								}
+							}
+							return true
+						}
+						var names []string
+						for _, o := range cands {
+							if o == fobj || o.Name() == fobj.Name() || (!o.Exported() && o.Pkg() != pkg.Types) {
+								continue
+							}
+							if sameSig(sig, o.Type().(*types.Signature)) {
+								names = append(names, o.Name())
+							}
+						}
+						sort.Strings(names)
+						if len(names) > 0 {
+							// the next name after the callee's, cyclically
+							pick := names[0]
+							for _, n := range names {
+								if n > fobj.Name() {
+									pick = n
+									break
+								}
+							}
+							emit("callee-sibling", calleeID.Pos(), calleeID.End(), pick)
+						}
+						return true
+					})
 					// typed mutation operators (these are NOT neutral): two adjacent arguments of one type exchanged, two
 					// same-typed fields of a keyed literal exchanged, a named constant replaced by its neighbour of the same type
 					ast.Inspect(fd.Body, func(n ast.Node) bool {
